@@ -1,7 +1,304 @@
 package schedx
 
-// JudgeBlocking is the oracle of C18 (built with the blocking programs).
-func JudgeBlocking(p Program, x *Execution) string { return "" }
+import (
+	"fmt"
+	"sort"
+	"strings"
+
+	"verif/h/drv"
+)
+
+// ---- C18: blocking consume ----------------------------------------------
+
+type blockInit struct {
+	init []string
+	next int64
+}
+
+var blockInits = []blockInit{
+	{nil, 0},
+	{[]string{"P:0/1/u", "P:1/1/u"}, 2}, // head full: the next publish rolls over
+}
+
+func cb(ctx int, off int64) string { return fmt.Sprintf("ConsumeBlocking:%d,%d,40", ctx, off) }
+func cbk(ctx int, off int64) string {
+	return fmt.Sprintf("ConsumeByKeyBlocking:%d,0,%d,40", ctx, off)
+}
 
 // Programs18 returns the programs of C18.
-func Programs18(tier string) []Program { return nil }
+func Programs18(tier string) []Program {
+	var ps []Program
+	seen := map[string]bool{}
+	add := func(init blockInit, threads ...[]string) {
+		ts := make([]string, len(threads))
+		for i, t := range threads {
+			ts[i] = strings.Join(t, ";")
+		}
+		k := fmt.Sprintf("%v|%s", init.init, strings.Join(ts, "||"))
+		if seen[k] {
+			return
+		}
+		seen[k] = true
+		ps = append(ps, Program{Name: fmt.Sprintf("b%03d", len(ps)), Cfg: cfgBoth, Init: init.init, Threads: threads, Block: true})
+	}
+	for _, in := range blockInits {
+		offs := []int64{in.next, in.next + 1, -2, -1}
+		if in.next > 0 {
+			offs = append(offs, in.next-1)
+		}
+		for _, o := range offs {
+			// nothing happens: a waiter at or beyond NextOffset stays parked, the others return at once
+			add(in, []string{cb(0, o)})
+			add(in, []string{cbk(0, o)})
+			for _, pub := range []string{"Publish:1", "Publish:0", "Publish:2"} {
+				add(in, []string{cb(0, o)}, []string{pub})
+				add(in, []string{cbk(0, o)}, []string{pub})
+			}
+			add(in, []string{cb(0, o)}, []string{"Cancel:0"})
+			add(in, []string{cb(0, o)}, []string{"Close"})
+			add(in, []string{cb(0, o)}, []string{"Cancel:0"}, []string{"Publish:1"})
+			add(in, []string{cb(0, o)}, []string{"Close"}, []string{"Publish:1"})
+			add(in, []string{cb(0, o)}, []string{"Publish:1"}, []string{"Publish:1"})
+			add(in, []string{cb(0, o)}, []string{"Publish:1", "Publish:1"})
+			add(in, []string{cb(0, o)}, []string{"Publish:0"}, []string{"Publish:1"})
+			// a publish that has returned before the call began: the call must not park
+			add(in, []string{"Publish:1", cb(0, in.next)})
+			add(in, []string{"Publish:1", cb(0, in.next)}, []string{cb(1, o)})
+			for _, o2 := range offs {
+				add(in, []string{cb(0, o)}, []string{cb(1, o2)}, []string{"Publish:1"})
+				if tier == "thorough" {
+					add(in, []string{cb(0, o)}, []string{cb(1, o2)}, []string{"Publish:1"}, []string{"Publish:1"})
+					add(in, []string{cb(0, o)}, []string{cb(1, o2)}, []string{"Publish:1"}, []string{"Cancel:0"})
+					add(in, []string{cb(0, o)}, []string{cb(1, o2)}, []string{"Publish:1"}, []string{"Close"})
+				}
+			}
+		}
+		add(in, []string{"Close"}, []string{"Close"})
+		add(in, []string{"Close", cb(0, in.next)})
+		add(in, []string{"Close", cb(0, -2)})
+		add(in, []string{"Close"}, []string{"Publish:1", cb(0, in.next+1)})
+		// two waiters, two publishers
+		add(in, []string{cb(0, in.next)}, []string{cb(1, in.next+1)}, []string{"Publish:1"}, []string{"Publish:1"})
+		add(in, []string{cb(0, in.next)}, []string{cb(1, in.next)}, []string{"Publish:1"}, []string{"Cancel:1"})
+	}
+	return ps
+}
+
+type bcall struct {
+	t, c     int
+	name     string
+	op       string
+	args     []int64
+	inv, ret int
+	res      Res
+}
+
+// JudgeBlocking is the oracle of C18.
+func JudgeBlocking(p Program, x *Execution) string {
+	var calls []bcall
+	for ti := range p.Threads {
+		for ci, name := range p.Threads[ti] {
+			op, arg, _ := strings.Cut(name, ":")
+			bc := bcall{t: ti, c: ci, name: name, op: op, args: ints(arg), inv: -1, ret: 1 << 30, res: x.Results[ti][ci]}
+			for _, h := range x.Hist {
+				if h.Thread == ti && h.Call == ci {
+					if h.Ret {
+						bc.ret = h.Step
+					} else {
+						bc.inv = h.Step
+					}
+				}
+			}
+			calls = append(calls, bc)
+		}
+	}
+	for _, c := range calls {
+		if c.res.Panic != "" {
+			return fmt.Sprintf("T%d %s panicked: %s", c.t, c.name, c.res.Panic)
+		}
+	}
+	initNext := x.Init.Next
+	hasClose, anyWake := false, false
+	for _, c := range calls {
+		if c.op == "Close" {
+			hasClose = true
+		}
+		if c.op == "Close" || c.op == "Publish" {
+			anyWake = true
+		}
+	}
+	// NextOffset once everything has finished
+	finalNext := initNext
+	for _, c := range calls {
+		if c.op == "Publish" && c.res.Err == "ok" && c.res.Next > finalNext {
+			finalNext = c.res.Next
+		}
+	}
+	for _, c := range calls {
+		if c.op != "ConsumeBlocking" && c.op != "ConsumeByKeyBlocking" {
+			continue
+		}
+		ctx := int(c.args[0])
+		off := c.args[1]
+		if c.op == "ConsumeByKeyBlocking" {
+			off = c.args[2]
+		}
+		cancelledBefore, cancelled := false, false
+		for _, d := range calls {
+			if d.op == "Cancel" && int(d.args[0]) == ctx {
+				cancelled = true
+				if d.inv < c.ret {
+					cancelledBefore = true
+				}
+			}
+		}
+		parked := x.Parked != nil && x.Parked[c.t] && c.c == len(p.Threads[c.t])-1
+		ever := x.EverParked != nil && x.EverParked[c.t]
+		// offsets known to be below NextOffset when the call began
+		below := off < 0 || off < initNext
+		for _, d := range calls {
+			if d.op == "Publish" && d.res.Err == "ok" && d.ret < c.inv && off < d.res.Next {
+				below = true
+			}
+		}
+		closedBefore := false
+		for _, d := range calls {
+			if d.op == "Close" && d.res.Err == "ok" && d.ret < c.inv {
+				closedBefore = true
+			}
+		}
+		what := fmt.Sprintf("T%d %s [%d,%d] -> %s", c.t, c.name, c.inv, c.ret, resString(c.res))
+		switch {
+		case parked:
+			// (1) no lost wake-up: still parked when nothing else can run
+			if off < finalNext || cancelled || hasClose {
+				return fmt.Sprintf("lost wake-up: %s is still parked although NextOffset is %d (cancelled=%v, closed=%v)", what, finalNext, cancelled, hasClose)
+			}
+			if below {
+				return fmt.Sprintf("%s parked although its offset was below NextOffset (or relative) when it began", what)
+			}
+			continue
+		case below && !closedBefore:
+			// (3) immediate
+			if ever {
+				return fmt.Sprintf("%s had to wait although its offset was below NextOffset (or relative) when it began", what)
+			}
+			if c.res.Err != "ok" && !(c.res.Err == "ctx" && cancelledBefore) && !(c.res.Err == "closed" && hasClose) {
+				return fmt.Sprintf("%s failed although its offset was below NextOffset (or relative)", what)
+			}
+		}
+		switch c.res.Err {
+		default:
+			// an error of the underlying Consume (e.g. woken by an empty publish while
+			// still beyond NextOffset): judged with the results below; the wake-up
+			// itself must have a reason like any other return
+			fallthrough
+		case "ok":
+			// (2) never for nothing
+			if !below && !anyWake {
+				return fmt.Sprintf("%s returned although no Publish or Close happened", what)
+			}
+			wake := false
+			for _, d := range calls {
+				if (d.op == "Publish" || d.op == "Close") && d.inv < c.ret {
+					wake = true
+				}
+			}
+			if !below && !wake {
+				return fmt.Sprintf("%s returned before any Publish or Close had begun", what)
+			}
+		case "ctx":
+			if !cancelledBefore {
+				return fmt.Sprintf("%s returned a context error although its context was not cancelled", what)
+			}
+		case "closed":
+			closeBegan := false
+			for _, d := range calls {
+				if d.op == "Close" && d.inv < c.ret {
+					closeBegan = true
+				}
+			}
+			if !closeBegan {
+				return fmt.Sprintf("%s failed as closed although Close had not begun", what)
+			}
+		}
+		if closedBefore && !below && c.res.Err == "ok" {
+			return fmt.Sprintf("%s started after Close had returned, at or beyond NextOffset, and did not fail", what)
+		}
+	}
+	// Close twice: the second fails, nothing hangs
+	nclose, okclose := 0, 0
+	for _, c := range calls {
+		if c.op == "Close" {
+			nclose++
+			if c.res.Err == "ok" {
+				okclose++
+			}
+		}
+	}
+	if nclose > 0 && okclose != 1 {
+		return fmt.Sprintf("%d of %d Close calls succeeded, want exactly 1", okclose, nclose)
+	}
+	// (4) what the calls returned: linearizable as plain Consume / Publish
+	if !hasClose {
+		q := Program{Cfg: p.Cfg, Init: p.Init}
+		y := &Execution{Hist: x.Hist, Init: x.Init, Final: x.Final, FinalN: x.FinalN, FinalErr: x.FinalErr}
+		for ti := range p.Threads {
+			var names []string
+			var rs []Res
+			for ci, name := range p.Threads[ti] {
+				r := x.Results[ti][ci]
+				op, arg, _ := strings.Cut(name, ":")
+				a := ints(arg)
+				switch op {
+				case "ConsumeBlocking":
+					name = fmt.Sprintf("Consume:%d,%d", a[1], a[2])
+				case "ConsumeByKeyBlocking":
+					name = fmt.Sprintf("ConsumeByKey:%d,%d,%d", a[1], a[2], a[3])
+				}
+				if r.Err == "ctx" || r.Err == "closed" || op == "Cancel" {
+					name = "Cancel:0" // no effect, always legal
+					r = Res{Err: "ok"}
+				}
+				names = append(names, name)
+				rs = append(rs, r)
+			}
+			q.Threads = append(q.Threads, names)
+			y.Results = append(y.Results, rs)
+		}
+		if msg := Linearizable(q, y); msg != "" {
+			return msg
+		}
+	}
+	return ""
+}
+
+// ---- C11 under concurrency ------------------------------------------------
+
+// Programs11 returns programs whose threads make the first access to
+// segments whose index files have been removed.
+func Programs11() []Program {
+	init := []string{"P:0/1/u", "P:1/1/u", "P:0/1/u", "P:1/1/u", "P:0/1/u", "RX:all"}
+	calls := []string{"Get:0", "Get:1", "Get:2", "Consume:-2,40", "Consume:2,40", "GetByKey:0", "Stat", "Delete:0", "Delete:3", "GC:0"}
+	var ps []Program
+	for i, a := range calls {
+		for _, b := range calls[i:] {
+			ps = append(ps, Program{Name: fmt.Sprintf("x%03d", len(ps)), Cfg: cfgBoth, Init: init, Threads: [][]string{{a}, {b}}})
+		}
+	}
+	for _, t := range [][]string{{"Get:0", "Get:1", "Consume:-2,40"}, {"Get:0", "Get:2", "Delete:1"}} {
+		ps = append(ps, Program{Name: fmt.Sprintf("x%03d", len(ps)), Cfg: cfgBoth, Init: init, Threads: [][]string{{t[0]}, {t[1]}, {t[2]}}})
+	}
+	return ps
+}
+
+// JudgeIndexFiles is the oracle of the concurrent part of C11.
+func JudgeIndexFiles(p Program, x *Execution) string {
+	if len(x.IndexDis) > 0 {
+		sort.Strings(x.IndexDis)
+		return "after the concurrent calls and Close: " + x.IndexDis[0]
+	}
+	return Linearizable(p, x)
+}
+
+var _ = drv.BaseT
